@@ -94,6 +94,8 @@ LAWS = [
     ("k * x / 4000000000.0", "must"),
     ("k * x * 1e-12", "must"),
     ("k * x * True", "refuse"),
+    ("k * math.sqrt((x - y) ** 2)", "may"),
+    ("k * ((x - y) ** 2) ** 0.25 + x", "may"),
     # two-argument functions whose MathML namesakes mean something else (rem is the floored modulo, ...)
     ("k * math.remainder(x, y)", "refuse"),
     ("k * math.fmod(x, y)", "refuse"),
